@@ -23,7 +23,7 @@ AS = (1 / 64, 0.25, 0.5, 2.0, 3.0, 10.0, 64.0, 100.0)
 
 def REQUIRED(tier):
     return [f"scale:{m}" for m in SCALES] + ["axis:None", "axis:0", "axis:1", "shape:one_lane", "shape:2d", "shape:1d", "class:constant", "class:zeros", "class:mixed_lanes", "class:ties",
-                                             "class:outliers", "equivariance_checks", "zscore_checks", "lane_checks", "a<0", "via_block", "via_timeseries", "layout:F", "layout:T_view", "dtype:float64_input", "input_unchanged_checks"]
+                                             "class:outliers", "equivariance_checks", "zscore_checks", "lane_checks", "a<0", "via_block", "via_timeseries", "layout:F", "layout:T_view", "dtype:float64_input", "input_unchanged_checks", "class:constant_nonround"]
 
 
 def cases(tier, seed):
@@ -44,6 +44,8 @@ def _data(rng, shape, cls):
         return x
     if cls == "constant":
         return np.full(shape, float(rng.integers(-100, 100)), dtype=np.float32)
+    if cls == "constant_nonround":   # constants that are not small integers: sums of squares are inexact, a one-pass variance may go negative
+        return np.full(shape, float(rng.choice([0.1, 3.3, -17.77, 1234.567, 0.37 * 7 + 11.3])), dtype=np.float32)
     if cls == "zeros":
         return np.zeros(shape, dtype=np.float32)
     if cls == "mixed_lanes":  # some lanes constant (incl. exactly zero, incl. the first lane), the others ordinary
@@ -103,6 +105,11 @@ def _one(case, j, ctx):
     cls = str(rng.choice(["uniform", "normal", "ties", "constant", "outliers", "zeros", "mixed_lanes"], p=[0.25, 0.2, 0.12, 0.08, 0.15, 0.05, 0.15]))
     a = float(rng.choice(AS) * rng.choice([-1, 1]))
     b = float(rng.integers(-1000, 1000))
+    if j % 12 == 5:
+        # finiteness on constant lanes of 33..120 non-round values (only finiteness is judged: the affine maps are not exact here)
+        cls = "constant_nonround"
+        nl2 = int(rng.integers(33, 121))
+        shape = (nl2,) if len(shape) == 1 else ((nl2, shape[1]) if axis == 0 else (shape[0], nl2) if axis == 1 else (shape[0], nl2))
     x = _data(rng, shape, cls)
     lay = "C"
     if x.ndim == 2:
@@ -178,6 +185,16 @@ def _one(case, j, ctx):
         # ---- (v) finiteness
         if not np.all(np.isfinite(S)):
             ctx.violation(f"non-finite-scale:{lab}:{cls}", f"scale = {np.ravel(S)[:4].tolist()}", one)
+            return
+        if cls == "constant_nonround":
+            ctx.count("class:constant_nonround")
+            for lm in LOCS:
+                zz = np.asarray(stats.estimate_zscore(x, lm, method, axis).data, dtype=np.float64)
+                ctx.count("zscore_checks")
+                # a constant lane carries no information: its z-scores are finite and negligible (scale falls back to 1), never NaN or huge
+                if not np.all(np.isfinite(zz)) or np.max(np.abs(zz)) > 1e-3 * max(1.0, float(np.max(np.abs(x)))):
+                    ctx.violation(f"constant-lane-zscore:{method}:{lm}", f"z-scores of a constant lane of value {float(np.ravel(x)[0])!r} ({shape}, axis={axis}): min {np.nanmin(zz) if np.any(np.isfinite(zz)) else 'nan'} max {np.nanmax(zz) if np.any(np.isfinite(zz)) else 'nan'}", one)
+                    return
             return
         # ---- (i) equivariance
         ctx.count("equivariance_checks")
